@@ -200,6 +200,7 @@ func cmdCheck(args []string) int {
 	var samples []string
 	var knownHit []string
 	var failures []string
+	nReplays := 0
 	report := func(o *Obligation, why string) {
 		for _, kf := range known {
 			if matchKnown(kf, *prop, o.Name) {
@@ -216,7 +217,10 @@ func cmdCheck(args []string) int {
 			"inputs": modelInputs(e, o),
 		})
 		suffix := " no-failing-input-found"
-		if o.Result != nil && o.Result.Status == "sat" && o.Result.Phase == "quantified" || (o.Result != nil && o.Result.Status == "sat" && !hasQuantHyps(o)) {
+		// a counter-model (of the query, or of its quantifier-instantiated weakening) is only a candidate input: it is
+		// believed if, and only if, the real code misbehaves on it
+		if o.Result != nil && (o.Result.Status == "sat" || o.Result.Model != "") && nReplays < 6 {
+			nReplays++
 			if ok := e.tryReplay(*vdir, *prop, o, rp); ok {
 				suffix = ""
 			}
